@@ -155,7 +155,7 @@ func (obj *SparseFloat64Vector) APPEND(w *SparseFloat64Vector) *SparseFloat64Vec
   r.n = obj.n + w.Dim()
   for it := w.ITERATOR(); it.Ok(); it.Next() {
     i := obj.n+it.Index()
-    r.values[i] = it.GET()
+    r.values[i] = it.GET().Clone()
     r.indexInsert(i)
   }
   return r
@@ -252,7 +252,7 @@ func (obj *SparseFloat64Vector) AppendScalar(scalars ...Scalar) Vector {
   for i, scalar := range scalars {
     switch s := scalar.(type) {
     case Float64:
-      r.values[obj.n+i] = s
+      r.values[obj.n+i] = s.Clone()
     default:
       r.values[obj.n+i] = s.ConvertScalar(Float64Type).(Float64)
     }
@@ -268,7 +268,10 @@ func (obj *SparseFloat64Vector) AppendVector(w_ Vector) Vector {
     r := obj.Clone()
     r.n = obj.n + w.Dim()
     for it := w.Iterator(); it.Ok(); it.Next() {
-      r.values[obj.n+it.Index()] = it.Get().ConvertScalar(Float64Type).(Float64)
+      // the elements of w may have the same scalar type, do not share them
+      s := NullFloat64()
+      s.Set(it.Get())
+      r.values[obj.n+it.Index()] = s
       r.indexInsert(obj.n+it.Index())
     }
     return r
